@@ -59,6 +59,7 @@ func checkC04(c *Ctx, r *Report) {
 	pointerLimitAdmitsOwnOutput(c, r, "C04.R5.pointer-limit")
 	copyKeepsType(c, r, "C04.R1.copy-type")
 	pointerReaders(c, r, "C04.R5.pointer-readers")
+	round12(c, r, "C04")
 }
 
 // c04R4b: the map accessors index with the key they are given (no normalisation inside find/insert).
